@@ -711,4 +711,65 @@ theorem renderDiagnostic_ok (file : Str) (src : List Str) (d : Diag) (hd : DiagO
               ((List.sublist_append_right _ _).trans (List.sublist_append_right _ _))
         · exact sub_r (sub_r (sub_r (sub_r (sub_r (htlc c hc t hm)))))
 
+/-! ### `to_span`: UTF-8 byte offsets to character columns -/
+
+theorem utf8Len_pos (c : Char) : 0 < utf8Len c := by
+  unfold utf8Len; split <;> (try split) <;> (try split) <;> omega
+
+theorem utf8Bytes_append (a b : Str) : utf8Bytes (a ++ b) = utf8Bytes a + utf8Bytes b := by
+  induction a with
+  | nil => simp [utf8Bytes]
+  | cons c cs ih => simp [utf8Bytes, ih]; omega
+
+theorem prefixChars_boundary (pre post : Str) : prefixChars (pre ++ post) (utf8Bytes pre) = pre.length := by
+  induction pre with
+  | nil =>
+    cases post with
+    | nil => simp [prefixChars]
+    | cons c cs =>
+      have := utf8Len_pos c
+      simp only [List.nil_append, utf8Bytes, prefixChars, List.length_nil]
+      rw [if_neg (by omega)]
+  | cons c cs ih =>
+    simp only [List.cons_append, utf8Bytes, prefixChars, List.length_cons]
+    rw [if_pos (by omega)]
+    have : utf8Len c + utf8Bytes cs - utf8Len c = utf8Bytes cs := by omega
+    rw [this, ih]; omega
+
+theorem utf8Bytes_ascii (s : Str) (h : isAscii s = true) : utf8Bytes s = s.length := by
+  induction s with
+  | nil => rfl
+  | cons c cs ih =>
+    unfold isAscii at h ih
+    simp only [List.all_cons, Bool.and_eq_true, decide_eq_true_eq] at h
+    simp only [utf8Bytes, List.length_cons, ih h.2, utf8Len, h.1, ↓reduceIte]
+    omega
+
+theorem isAscii_append (a b : Str) : isAscii (a ++ b) = (isAscii a && isAscii b) := by
+  simp [isAscii]
+
+/-- on a character boundary the converted column is the number of characters before it -/
+theorem charColumn_boundary (pre post : Str) : charColumn (pre ++ post) (utf8Bytes pre) = pre.length := by
+  unfold charColumn
+  split
+  · rename_i h
+    rw [isAscii_append, Bool.and_eq_true] at h
+    exact utf8Bytes_ascii pre h.1
+  · rw [if_neg (by rw [utf8Bytes_append]; omega)]
+    exact prefixChars_boundary pre post
+
+theorem utf8Len_eq (c : Char) : utf8Len c = c.utf8Size := by
+  unfold utf8Len Char.utf8Size
+  simp only [UInt32.lt_iff_toNat_lt, UInt32.le_iff_toNat_le]
+  have : (0x80 : UInt32).toNat = 128 := rfl
+  have : (0x800 : UInt32).toNat = 2048 := rfl
+  have : (0x10000 : UInt32).toNat = 65536 := rfl
+  simp only [UInt32.toNat_ofNatLT]
+  split <;> split <;> (try split) <;> (try split) <;> (try split) <;> (try split) <;> omega
+
+theorem utf8Bytes_eq (s : Str) : utf8Bytes s = byteLen s := by
+  induction s with
+  | nil => rfl
+  | cons c cs ih => simp [utf8Bytes, byteLen, utf8Len_eq] at ih ⊢; omega
+
 end GuppyVerif.Render
